@@ -1,8 +1,18 @@
 import Driver.Codec
+import DfModel.Compute
 
 open Lean
 namespace Df.Ops
 open Df.Codec
+
+/-- Python's `str()` on the cell values the harness sends through text operations (strings, ints, bools) -/
+def pyStrOf : Val → String
+  | .str s => s
+  | .int i => toString i
+  | .bool b => if b then "True" else "False"
+  | .null => "None"
+  | .dec _ _ => "<decimal>"
+  | .other _ r => r
 
 /-- `step` op: one Layer-A processor on a materialised package -/
 def opStep (j : Json) : R Json := do
@@ -43,6 +53,16 @@ def opStep (j : Json) : R Json := do
     | "concatenate" => do
       let fs ← (← arr a "fields").toList.mapM (decPairWith (fun x => do strList (← x.getArr?)))
       pure (concatenate O fs (← str a "target_name") (← str a "target_path") sel pkg)
+    | "find_replace" => do
+      let fs ← (← arr a "fields").toList.mapM (fun f => do
+        return { name := ← str f "name", patterns := ← (← arr f "patterns").toList.mapM decStrPair : FRField })
+      pure (findReplace O pyStrOf fs sel pkg)
+    | "add_computed_field" => do
+      let op : CompOp ← match ← str a "operation" with
+        | "sum" => pure .sum | "max" => pure .max | "min" => pure .min | "multiply" => pure .multiply
+        | "constant" => pure .constant | "join" => pure .join
+        | o => throw s!"operation {o} is outside the model"
+      pure (addComputedField O pyStrOf (← str a "target") op (← strList (← arr a "source")) (← str a "with") sel pkg)
     | p => throw s!"unknown proc {p}"
   return encResult res
 
